@@ -455,7 +455,10 @@ fn run_single_program(
 
             // our strings do not have '\x00' bytes in them,
             // we can use CString::new().expect() safely.
+            // per-command `NAME=value` pairs override inherited variables
+            // of the same name instead of being appended as duplicates.
             let mut c_envs: Vec<_> = env::vars()
+                .filter(|(k, _)| !cl.envs.contains_key(k))
                 .map(|(k, v)| {
                     CString::new(format!("{}={}", k, v).as_str()).expect("CString error")
                 })
